@@ -572,6 +572,10 @@ def compile_family(tier):
              ("and", [A, ("or", [B, ("T",)])]), ("or", [A, ("T",)])]
     tap_too = [("and", [A, B]), ("thresh", 2, [A, B, C]), ("thresh", 2, [A, B, O5]), ("and", [("and", [A, O5]), O9])]
     quick = [(p, "segwitv0") for p in cheap + mixed] + [(p, "tap") for p in tap_too + mixed]
+    # the pre-segwit contexts: MINIMALIF is not a consensus rule there, so the compiler must do without or_i / d:
+    pre = [A, ("and", [A, B]), ("or", [A, B]), ("thresh", 2, [A, B, C]), ("thresh", 2, [A, B, O5]), ("and", [A, ("or", [B, O5])]),
+           ("or", [A, ("and", [B, O5])]), ("thresh", 2, [A, B, H])]
+    quick += [(p, "legacy") for p in pre] + [(p, "bare") for p in pre[:5]]
     if tier == "quick":
         return quick
     dear = [("and", [A, O5]), ("and", [A, H]), ("orw", [(1, A), (9, B)]), ("thresh", 3, [A, B, C]), ("and", [("and", [A, B]), C]),
@@ -612,6 +616,30 @@ def _pol_sem(p):
     return p
 
 
+def pol_text(p):
+    """policy tuple -> the policy's text (used in rule instance keys: no blanks)"""
+    t = p[0]
+    if t == "key":
+        return "pk(%s)" % p[1]
+    if t in ("older", "after"):
+        return "%s(%d)" % (t, p[1])
+    if t == "hash":
+        return "%s(%s)" % (p[1].lower(), p[2])
+    if t == "T":
+        return "TRIVIAL"
+    if t == "F":
+        return "UNSATISFIABLE"
+    if t == "and":
+        return "and(%s)" % ",".join(pol_text(x) for x in p[1])
+    if t == "or":
+        return "or(%s)" % ",".join(pol_text(x) for x in p[1])
+    if t == "orw":
+        return "or(%s)" % ",".join("%d@%s" % (w, pol_text(x)) for w, x in p[1])
+    if t == "thresh":
+        return "thresh(%d,%s)" % (p[1], ",".join(pol_text(x) for x in p[2]))
+    return repr(p).replace(" ", "")
+
+
 def _compile_work(args):
     from .. import facts, textmodel as tm
     from . import c06, c07, c14, c18
@@ -623,7 +651,7 @@ def _compile_work(args):
     m.text_keys = True
     m.max_steps = 400_000_000
     c14.lock_hooks(m)
-    key = "%s|%r" % (ctx, p)
+    key = "%s|%s" % (ctx, pol_text(p))
     try:
         comp = [q for q in F.fns if q.endswith("policy::concrete::Policy::<Pk>::compile")][0]
         r = m.call_callee({"def": comp, "resolved": comp, "name": "compile", "targs": ["std::string::String", c06.CTX[ctx]]},
@@ -680,7 +708,8 @@ def _compile_work(args):
 def check_compile_end_to_end(chk, F):
     import multiprocessing as mp
     R = "R08.9"
-    chk.rule(R, "whole policies through Policy::compile (both signature contexts), by evaluating the compiler itself: whenever "
+    chk.rule(R, "whole policies through Policy::compile (segwit v0, tapscript, and a smaller family in the pre-segwit Legacy / "
+                "Bare contexts), by evaluating the compiler itself: whenever "
                 "a miniscript is returned it lifts (evaluated) to a policy with the truth table of the input policy, is of type "
                 "B, signed and non-malleable, passes validate(&Ctx::SANE), and its text parses back to it")
     jobs = compile_family(chk.tier)
@@ -730,7 +759,7 @@ def _compile_tr_work(job):
     m.max_steps = 400_000_000
     c14.lock_hooks(m)
     tm.install_bech32(F, m)
-    key = "%s|%r" % (mode, p)
+    key = "%s|%s" % (mode, pol_text(p))
     try:
         S = "std::string::String"
         if mode in ("compile_tr", "compile_tr_private_experimental"):
